@@ -2590,7 +2590,51 @@ func (g *gen) writerFaults(src *hframe) {
 			}()
 			g.w.Line("WF", tx.Int(src.id), kind, tx.Int(total), tx.Int(k), res, tx.Int(fw.accepted))
 		}
+		if kind != "json" {
+			continue
+		}
+		// ReadJSON from a reader that delivers the first k bytes (in drawn chunk sizes) and then fails
+		//   RF <src> json <total> <k> <err 0|1|P>
+		doc := full.Bytes()
+		chunk := 1 + g.r.Intn(7)
+		for k := 0; k < total; k++ {
+			fr := &faultReader{data: doc[:k], chunk: chunk}
+			res := "0"
+			func() {
+				defer func() {
+					if p := recover(); p != nil {
+						res = "P"
+					}
+				}()
+				if qframe.ReadJSON(fr).Err != nil {
+					res = "1"
+				}
+			}()
+			g.w.Line("RF", tx.Int(src.id), kind, tx.Int(total), tx.Int(k), res)
+		}
 	}
+}
+
+type faultReader struct {
+	data  []byte
+	pos   int
+	chunk int
+}
+
+func (r *faultReader) Read(p []byte) (int, error) {
+	if r.pos >= len(r.data) {
+		return 0, errWriter
+	}
+	n := r.chunk
+	if n > len(p) {
+		n = len(p)
+	}
+	if n > len(r.data)-r.pos {
+		n = len(r.data) - r.pos
+	}
+	copy(p, r.data[r.pos:r.pos+n])
+	r.pos += n
+	return n, nil
 }
 
 // witnesses replays the recorded (open) findings of this section deterministically, so that every run probes them.
